@@ -40,6 +40,14 @@ def run(c):
     for b in batch:
         for o in b["obs"]:
             o.pop("exc", None)
+    # binding self-test: one recorded field of a conforming record is corrupted (the admitted channel "reached nobody");
+    # the trace spec must reject exactly that record
+    import copy
+    src = next(b for b in batch if b["obs"] and all(o["ok"] and not o["crashed"] for o in b["obs"]))
+    canary = copy.deepcopy(src)
+    canary["obs"][-1]["dest"] = "nobody"
+    batch.append(canary)
+    recs.append(dict(recs[batch.index(src)], canary=True))
     res = {"VERDICT": [], "DONE": []}
     for i in range(0, len(batch), 4000):
         part, _ = c.trace("ChanOpen_Trace", batch[i:i + 4000], cfg_text(spec="TSpec", constants=dict(consts, MaxOpens=9, MaxToggles=9), invariants=["Report"]))
@@ -47,7 +55,11 @@ def run(c):
         res["DONE"] += part["DONE"]
     if len(res["DONE"]) != len(batch):
         raise Machinery("trace validation consumed %d of %d traces" % (len(res["DONE"]), len(batch)))
-    c.traces += len(batch)
+    hit = [v for v in res["VERDICT"] if v[1] == len(batch)]
+    if not hit or "P_channel_not_delivered_as_required" not in hit[0][-1]:
+        raise Machinery("binding self-test: the trace spec accepted a record whose delivery field was corrupted")
+    res["VERDICT"] = [v for v in res["VERDICT"] if v[1] != len(batch)]
+    c.traces += len(batch) - 1
 
     def describe(tid, clause, row):
         rec = recs[tid - 1]
